@@ -194,7 +194,9 @@ def check_property(prop, tier, verbose=False):
         else:
             errors.append(f'{key}: {rep.get("note")}')
     # obligations of the baseline that were not generated at all (contract anchor lost, path vanished)
-    missing = [k for k, v in exp.items() if v == 'DISCHARGED' and k not in summary]
+    # (only obligations named by a contract / lemma / scenario: safety obligations are named after the source expression they guard, and
+    # a harmless edit of that expression must not turn into a checker error)
+    missing = [k for k, v in exp.items() if v == 'DISCHARGED' and k not in summary and '.safe.' not in k]
     for k in missing:
         errors.append(f'expected obligation not generated: {k}')
     # bounded twin failures are failing inputs on the real code
